@@ -1383,6 +1383,23 @@ func (ev *Evaluator) stmt(s ast.Stmt, env *Env, fr *Frame) ctl {
 		// a call for effect: in-package functions are evaluated (slices and pointers share storage with the
 		// caller); anything else could change state the evaluator would then misreport, so it leaves the subset
 		if call, ok := x.X.(*ast.CallExpr); ok {
+			// delete(m, k) on a table the evaluator has built
+			if id, isID := call.Fun.(*ast.Ident); isID && id.Name == "delete" && len(call.Args) == 2 {
+				if _, isB := ev.Info.Uses[id].(*types.Builtin); isB {
+					m, okM := ev.Eval(call.Args[0], env).(*Map)
+					k := ev.Eval(call.Args[1], env)
+					if _, bad := k.(Unknown); !okM || bad || k == nil {
+						return ev.abort(x, "delete on an undetermined table or key")
+					}
+					for i, e := range m.Entries {
+						if Equal(e.K, k) {
+							m.Entries = append(m.Entries[:i:i], m.Entries[i+1:]...)
+							break
+						}
+					}
+					return ctlNone
+				}
+			}
 			if fd, _ := ev.calleeDecl(call); fd != nil {
 				if _, bad := ev.Eval(call, env).(Unknown); bad {
 					return ev.abort(x, "call for effect left the evaluable subset")
